@@ -138,7 +138,8 @@ func runC30(c *core.Ctx) error {
 	}
 	for _, a := range []string{"ChangeFieldType/name", "ChangeFieldType/boxedness", "ChangeFieldType/nested-name", "ChangeFieldType/natconst", "ChangeFieldType/natref",
 		"ChangeFieldType/result-name", "RemoveField/inner", "RemoveField/last", "RemoveConstructor/union-variant", "ReuseUsedBit/local", "ReuseUsedBit/outer-scope",
-		"AppendUnmaskedField/constructor-int", "AppendUnmaskedField/function-int", "RemoveTemplateArg/referenced"} {
+		"AppendUnmaskedField/constructor-int", "AppendUnmaskedField/function-int", "AppendUnmaskedField/constructor-mask-and-masked-field",
+		"AppendUnmaskedField/constructor-mask-and-masked-field-besides-masks", "RemoveTemplateArg/referenced"} {
 		if byAction[a] == 0 {
 			return fmt.Errorf("vacuous: position class %s was never exercised", a)
 		}
